@@ -252,6 +252,9 @@ func TestVF_C08_Cluster(t *testing.T) {
 				Fault{Kind: FStopReplica, A: vfhelp.Pick(t, "sr", 2), B: vfhelp.Pick(t, "srb", 3), AfterMs: 10 + vfhelp.PickN(t, "srafter", 40)},
 				Fault{Kind: FPowerCut, A: vfhelp.Pick(t, "pch", 2), AfterMs: 10 + vfhelp.PickN(t, "pcafter", 40)},
 				Fault{Kind: FRestart, AfterMs: 20 + vfhelp.PickN(t, "rsafter", 60)})
+			// exported snapshots are not recorded in the log store and must not move the compaction point
+			p.Faults = append(p.Faults, Fault{Kind: FExport, A: vfhelp.Pick(t, "exp", 2), AfterMs: 15 + vfhelp.PickN(t, "expafter", 40)},
+				Fault{Kind: FExport, A: vfhelp.Pick(t, "exp2", 2), AfterMs: 15 + vfhelp.PickN(t, "expafter2", 40)})
 			if p.SlowSnapMs > 0 {
 				// a replica stopped / a host closed while its snapshot worker is inside SaveSnapshot
 				p.Faults = append(p.Faults, Fault{Kind: FCloseDuringSnapshot, A: vfhelp.Pick(t, "cds", 2), AfterMs: 10 + vfhelp.PickN(t, "cdsafter", 40)})
@@ -280,6 +283,12 @@ func TestVF_C06_Cluster(t *testing.T) {
 				p.WidenUs = 200 + vfhelp.PickN(t, "widenus2", 1500)
 			}
 			p.Faults = append(p.Faults, Fault{Kind: FTransfer, A: vfhelp.Pick(t, "tr", 2), B: vfhelp.Pick(t, "trb", 2), AfterMs: 10 + vfhelp.PickN(t, "trafter", 40)})
+			if vfhelp.Pick(t, "slowread", 1) == 1 {
+				// readers that use their completed ReadIndex late, while replicas are stopped and started again
+				p.SlowReadUs = 500 + vfhelp.PickN(t, "slowreadus", 4000)
+				p.Faults = append(p.Faults, Fault{Kind: FStopReplica, A: vfhelp.Pick(t, "sr", 2), B: vfhelp.Pick(t, "srb", 3), AfterMs: 10 + vfhelp.PickN(t, "srafter", 30)},
+					Fault{Kind: FStopReplica, A: vfhelp.Pick(t, "sr2", 2), B: vfhelp.Pick(t, "srb2", 3), AfterMs: 5 + vfhelp.PickN(t, "srafter2", 30)})
+			}
 		},
 		rule: "non-trivial = >= 3 reads completed through ReadIndex, at least one on a host that was not the leader's, interleaved with completed writes on the same keys",
 		nontriv: func(res *Result) bool {
